@@ -77,7 +77,7 @@ pub fn decode(tape: &[u16]) -> Case {
     let spec = sched_spec(&mut t);
     let foreign = t.chance(2, 5);
     let input = if foreign {
-        let d = doc(&mut t, &DocOpts { amp_safe: true, no_annotation_xml: true, no_esi: true, deep_wrappers: false, max_items: 12, ..DocOpts::default() });
+        let d = doc(&mut t, &DocOpts { amp_safe: true, no_annotation_xml: true, no_esi: true, deep_wrappers: false, breakouts: false, max_items: 12, ..DocOpts::default() });
         String::from_utf8(d.bytes).expect("doc is UTF-8")
     } else {
         // G1: soup over the adversarial alphabet without svg/math
